@@ -138,6 +138,12 @@ type genPiece struct {
 	konst string
 	dyn   *genDyn
 	alts  []string // one of these constants (a value looked up in a constant table)
+	group *genGroup // zero or more elements (each one of the alternatives elems) separated by sep
+}
+
+type genGroup struct {
+	elems [][]genPiece
+	sep   string
 }
 
 // genSplice is one classified splice.
@@ -171,6 +177,8 @@ type genWalker struct {
 	locals  map[types.Object]ast.Expr
 	kwSafe  map[types.Object]bool
 	memo    map[string]lexState
+	// sliceElems: the element expressions appended to a local []string (for strings.Join of it)
+	sliceElems map[types.Object][]ast.Expr
 	curFn   string
 
 	Splices []*genSplice
@@ -465,6 +473,32 @@ func (a *genWalker) pieces(e ast.Expr) ([]genPiece, bool) {
 		}
 	case *ast.CallExpr:
 		if id, ok := x.Fun.(*ast.Ident); ok {
+			if vals, _, ok := a.tableFunc(a.funcs[id.Name]); ok {
+				return []genPiece{{alts: vals}}, true
+			}
+		}
+		// strings.Join(list, sep) of a local list that is filled by appends in a loop: zero or more elements
+		// separated by the constant
+		if se, ok := x.Fun.(*ast.SelectorExpr); ok && se.Sel.Name == "Join" && len(x.Args) == 2 {
+			if pid, ok := se.X.(*ast.Ident); ok && pid.Name == "strings" {
+				if lid, ok := x.Args[0].(*ast.Ident); ok {
+					sep, okS := a.pieces(x.Args[1])
+					elems := a.sliceElems[a.info.Uses[lid]]
+					if okS && len(sep) == 1 && sep[0].dyn == nil && sep[0].alts == nil && len(elems) > 0 {
+						g := &genGroup{sep: sep[0].konst}
+						for _, el := range elems {
+							ps, ok := a.pieces(el)
+							if !ok {
+								return nil, false
+							}
+							g.elems = append(g.elems, ps)
+						}
+						return []genPiece{{group: g}}, true
+					}
+				}
+			}
+		}
+		if id, ok := x.Fun.(*ast.Ident); ok {
 			if fd, ok := a.funcs[id.Name]; ok && fd.Type.Results != nil && len(fd.Type.Results.List) >= 1 &&
 				types.Identical(a.info.TypeOf(fd.Type.Results.List[0].Type), types.Typ[types.String]) {
 				return a.evalStringFunc(fd, x)
@@ -723,7 +757,7 @@ func (a *genWalker) feedExpr(l lexState, e ast.Expr) lexState {
 	// `q := "\"" + name + "\""` must not split the text it is spliced into)
 	var merged []genPiece
 	for _, p := range ps {
-		if p.dyn == nil && p.alts == nil && len(merged) > 0 && merged[len(merged)-1].dyn == nil && merged[len(merged)-1].alts == nil {
+		if p.dyn == nil && p.alts == nil && p.group == nil && len(merged) > 0 && merged[len(merged)-1].dyn == nil && merged[len(merged)-1].alts == nil && merged[len(merged)-1].group == nil {
 			merged[len(merged)-1].konst += p.konst
 			continue
 		}
@@ -737,13 +771,35 @@ func (a *genWalker) feedExpr(l lexState, e ast.Expr) lexState {
 		if a.curSeg == nil {
 			a.curSeg = &genFrag{Pos: e.Pos(), Fn: a.curFn, At: l}
 		}
-		if p.dyn != nil || p.alts != nil {
+		if p.dyn != nil || p.alts != nil || p.group != nil {
 			a.curSeg.Text += "\x00"
 		} else {
 			a.curSeg.Text += p.konst
 		}
 	}
 	for i, p := range ps {
+		if p.group != nil {
+			// zero or more elements separated by a constant: every element and the separator must leave the output
+			// in the mode it was in (like the body of a loop)
+			out := l
+			for _, el := range p.group.elems {
+				o := a.feedPieces(l, el, e)
+				if j, ok := joinLex(out, o); ok {
+					out = j
+				} else {
+					a.problem(e, "a joined list element changes the lexical mode of the output")
+				}
+			}
+			a.Frags = append(a.Frags, genFrag{e.Pos(), a.curFn, p.group.sep, l})
+			if j, ok := joinLex(out, l.feedStr(p.group.sep)); ok {
+				out = j
+			} else {
+				a.problem(e, fmt.Sprintf("the separator %q of a joined list changes the lexical mode of the output", p.group.sep))
+			}
+			l = out
+			a.lastConst = ""
+			continue
+		}
 		if p.alts != nil {
 			// each alternative is constant text of the template; all must leave the output in the same mode
 			var out lexState
@@ -776,6 +832,35 @@ func (a *genWalker) feedExpr(l lexState, e ast.Expr) lexState {
 			a.Frags = append(a.Frags, genFrag{e.Pos(), a.curFn, p.konst, l})
 			l = l.feedStr(p.konst)
 			a.lastConst = p.konst
+		}
+	}
+	return l
+}
+
+// feedPieces feeds already classified pieces (the elements of a joined list).
+func (a *genWalker) feedPieces(l lexState, ps []genPiece, e ast.Expr) lexState {
+	for i, p := range ps {
+		switch {
+		case p.dyn != nil:
+			next, hasNext := "", false
+			if i+1 < len(ps) && ps[i+1].dyn == nil {
+				next, hasNext = ps[i+1].konst, true
+			} else {
+				next, hasNext = "x", true // followed by the separator or another element: not at the end of the text
+			}
+			prev := ""
+			if i > 0 && ps[i-1].dyn == nil {
+				prev = ps[i-1].konst
+			}
+			l = a.feedDyn(l, p.dyn, e, prev, next, hasNext)
+		case p.alts != nil:
+			for _, alt := range p.alts {
+				a.Frags = append(a.Frags, genFrag{e.Pos(), a.curFn, alt, l})
+			}
+			l = l.feedStr(p.alts[0])
+		default:
+			a.Frags = append(a.Frags, genFrag{e.Pos(), a.curFn, p.konst, l})
+			l = l.feedStr(p.konst)
 		}
 	}
 	return l
@@ -1072,6 +1157,34 @@ func (a *genWalker) stmt(s ast.Stmt, l lexState, rets *[]lexState) (lexState, bo
 				if id, ok := x.Lhs[0].(*ast.Ident); ok {
 					if obj := a.info.Defs[id]; obj != nil && types.Identical(obj.Type(), types.Typ[types.String]) {
 						a.locals[obj] = ix
+					}
+				}
+			}
+			// name, ok := tableFunc(key)
+			if c, ok := x.Rhs[0].(*ast.CallExpr); ok {
+				if fid, ok := c.Fun.(*ast.Ident); ok {
+					if _, _, isT := a.tableFunc(a.funcs[fid.Name]); isT {
+						if id, ok := x.Lhs[0].(*ast.Ident); ok {
+							if obj := a.info.Defs[id]; obj != nil {
+								a.locals[obj] = c
+							}
+						}
+					}
+				}
+			}
+		}
+		// list = append(list, elem) on a local []string
+		if len(x.Lhs) == 1 && len(x.Rhs) == 1 {
+			if c, ok := x.Rhs[0].(*ast.CallExpr); ok && len(c.Args) >= 2 && !c.Ellipsis.IsValid() {
+				if fid, ok := c.Fun.(*ast.Ident); ok && fid.Name == "append" {
+					if id, ok := x.Lhs[0].(*ast.Ident); ok {
+						if obj := a.info.Uses[id]; obj != nil {
+							if st, ok := obj.Type().Underlying().(*types.Slice); ok && types.Identical(st.Elem(), types.Typ[types.String]) {
+								for _, el := range c.Args[1:] {
+									a.sliceElems[obj] = append(a.sliceElems[obj], a.freeze(el))
+								}
+							}
+						}
 					}
 				}
 			}
@@ -1501,6 +1614,7 @@ func RunGenWalker(p *Prog, m *idlModel, root string) (*genWalker, lexState, stri
 		a.Splices, a.Frags, a.Problems, a.Segs, a.curSeg = nil, nil, nil, nil, nil
 		a.StmtText = map[*ast.ExprStmt]string{}
 		a.locals, a.kwSafe, a.memo = map[types.Object]ast.Expr{}, map[types.Object]bool{}, map[string]lexState{}
+		a.sliceElems = map[types.Object][]ast.Expr{}
 		a.curFn, a.lastConst = root, ""
 		var rets []lexState
 		end, _ = a.stmts(gt.Body.List, lexState{}, &rets)
@@ -1649,6 +1763,56 @@ func (a *genWalker) constTable(e ast.Expr) ([]string, []ast.Expr, bool) {
 		keys = append(keys, k)
 	}
 	return vals, keys, true
+}
+
+// tableFunc: fd is `func(k K) (string, bool) { switch k { case A: return "a", true ... }; return "", false }`: a constant
+// table written as a function; returns the values and the case expressions in source order.
+func (a *genWalker) tableFunc(fd *ast.FuncDecl) ([]string, []ast.Expr, bool) {
+	if fd == nil || fd.Body == nil || fd.Recv != nil || len(fd.Body.List) != 2 || fd.Type.Results == nil || fd.Type.Params == nil {
+		return nil, nil, false
+	}
+	if n := fd.Type.Results.NumFields(); n != 2 || fd.Type.Params.NumFields() != 1 {
+		return nil, nil, false
+	}
+	sw, ok := fd.Body.List[0].(*ast.SwitchStmt)
+	if !ok || sw.Tag == nil {
+		return nil, nil, false
+	}
+	if id, ok := sw.Tag.(*ast.Ident); !ok || a.info.Uses[id] != a.info.Defs[fd.Type.Params.List[0].Names[0]] {
+		return nil, nil, false
+	}
+	ret := func(st ast.Stmt) (string, bool, bool) {
+		r, ok := st.(*ast.ReturnStmt)
+		if !ok || len(r.Results) != 2 {
+			return "", false, false
+		}
+		tv, ok1 := a.info.Types[r.Results[0]]
+		bv, ok2 := a.info.Types[r.Results[1]]
+		if !ok1 || !ok2 || tv.Value == nil || bv.Value == nil || tv.Value.Kind() != constant.String || bv.Value.Kind() != constant.Bool {
+			return "", false, false
+		}
+		return constant.StringVal(tv.Value), constant.BoolVal(bv.Value), true
+	}
+	if v, b, ok := ret(fd.Body.List[1]); !ok || b || v != "" {
+		return nil, nil, false
+	}
+	var vals []string
+	var keys []ast.Expr
+	for _, c := range sw.Body.List {
+		cc := c.(*ast.CaseClause)
+		if cc.List == nil || len(cc.Body) != 1 {
+			return nil, nil, false
+		}
+		v, b, ok := ret(cc.Body[0])
+		if !ok || !b {
+			return nil, nil, false
+		}
+		for _, k := range cc.List {
+			vals = append(vals, v)
+			keys = append(keys, k)
+		}
+	}
+	return vals, keys, len(vals) > 0
 }
 
 // decls: the functions and the methods of the generator package (methods keyed "<name>()").
